@@ -56,6 +56,18 @@ def install(ex):
             MODEL_NAMES.add(re.sub(r"<.*?>", "<_>", c)[:80]); return r
         return base(callee, a)
     def _model(c, callee, a):
+        # integer operators reached through the operator traits (`x + y` on `&i64` operands): overflow panics as in the dev profile the
+        # MIR dump is taken with (-C overflow-checks=on)
+        mop = re.match(r"^<&?(i8|i16|i32|i64|isize|u8|u16|u32|u64|usize) as (?:std::ops::|core::ops::)?(Add|Sub|Mul|Neg)(?:<.*>)?>::(add|sub|mul|neg)$", c)
+        if mop:
+            ity = mop.group(1); w = {"8": 8, "16": 16, "32": 32, "64": 64, "size": 64}[ity.lstrip("iu")]
+            lo, hi = (-(2 ** (w - 1)), 2 ** (w - 1) - 1) if ity[0] == "i" else (0, 2 ** w - 1)
+            xs = [deref(x) for x in a]
+            v = -xs[0] if mop.group(3) == "neg" else xs[0] + xs[1] if mop.group(3) == "add" else xs[0] - xs[1] if mop.group(3) == "sub" else xs[0] * xs[1]
+            if isinstance(v, int):
+                if v < lo or v > hi: raise M.Panic("attempt to %s with overflow" % {"add": "add", "sub": "subtract", "mul": "multiply", "neg": "negate"}[mop.group(3)])
+                return v
+            return NotImplemented
         mref = re.match(r"^<&(mut )?(.+) as (PartialEq|std::cmp::PartialEq)(<.*>)?>::(eq|ne)$", c)
         if mref and not re.match(r"^(str|usize|i64|bool|isize|TyID|std::string::String)$", mref.group(2)):
             x = a[0].get() if isinstance(a[0], Ref) else a[0]; y = a[1].get() if isinstance(a[1], Ref) else a[1]
